@@ -4,28 +4,9 @@
    here and proved to return a permutation sorted by the priority key
    (ascending priority number, 0 last) for every input length. *)
 From Coq Require Import List NArith Bool Lia Permutation Sorted.
-From Verif Require Import Model.Net Model.Alloc Proofs.AllocP Proofs.AllocPolicyP.
+From Verif Require Import Model.Net Model.Alloc Model.AllocRef Proofs.AllocP Proofs.AllocPolicyP.
 Import ListNotations.
 Local Open Scope N_scope.
-
-(* ServiceAllocations.Priority of a pinned pool *)
-Definition prio_of (p : pool) : N := match p_pin p with Some pn => prio pn | None => 0 end.
-
-(* the comparator passed to sort.Slice in sortPools *)
-Definition go_less (p q : pool) : bool :=
-  if (0 <? prio_of p) && (0 <? prio_of q) then prio_of p <? prio_of q
-  else if (prio_of p =? 0) && (0 <? prio_of q) then false
-  else true.
-
-(* insertionSort(data, a, b): for i := a+1; i < b; i++ { for j := i; j > a && less(j, j-1); j-- { swap(j, j-1) } }
-   [acc] is the already sorted prefix, REVERSED (its head is data[i-1]) *)
-Fixpoint ins_rev (less : pool -> pool -> bool) (x : pool) (acc : list pool) : list pool :=
-  match acc with
-  | [] => [x]
-  | e :: r => if less x e then e :: ins_rev less x r else x :: e :: r
-  end.
-Definition isort (less : pool -> pool -> bool) (l : list pool) : list pool :=
-  rev (fold_left (fun acc x => ins_rev less x acc) l []).
 
 Lemma ins_rev_perm less x acc : Permutation (ins_rev less x acc) (x :: acc).
 Proof.
